@@ -17,12 +17,32 @@
 #include <math.h>
 #include <limits.h>
 
+/* B9: every index fast_logmath_add uses on the 256-byte add table is recorded (the function itself does not check it);
+ * the scorers below are compiled against the recording wrapper, which then calls the real inline function. */
+#include <soundswallower/tied_mgau_common.h>
+static int g_addidx_max = -1, g_addidx_oob = 0;
+static inline int c18_fast_logmath_add(logmath_t *lmath, int mlx, int mly)
+{
+    int d = mlx > mly ? mlx - mly : mly - mlx;
+    if (d > g_addidx_max) g_addidx_max = d;
+    if ((uint32)d >= LOGMATH_TABLE(lmath)->table_size) g_addidx_oob++;
+    return fast_logmath_add(lmath, mlx, mly);
+}
+#define fast_logmath_add c18_fast_logmath_add
 #include <ptm_mgau.c>
 #define eval_topn s2semi_eval_topn
 #define eval_cb s2semi_eval_cb
 #include <s2_semi_mgau.c>
 #undef eval_topn
 #undef eval_cb
+#undef fast_logmath_add
+/* B8: the static score expressions of the grammar search are driven directly (fsg_search_pnode_trans) */
+#include <fsg_search.c>
+/* stage 3: the static frame-loop pieces of the aligner (renormalize_hmms, evaluate_hmms, prune_hmms, phone_transition) */
+#include <state_align_search.c>
+#ifndef C18_RENORM_TEST   /* the condition of the renormalisation `if` of state_align_search_step, pasted from the source by tools/props/c18.py */
+#define C18_RENORM_TEST(b) (-1)
+#endif
 
 #include <soundswallower/decoder.h>
 #include <soundswallower/acmod.h>
@@ -286,6 +306,301 @@ static void op_top(char **w, int nw)
     ckd_free(m2); ckd_free(v2); ckd_free(d2); ckd_free(m3); ckd_free(v3);
 }
 
+/* semif nfeat topn nsen nden compall use4b ds nframes | topn_beam[nfeat] | mixw as for ptm | nact deltas... |
+ *       per frame: nfeat*nden integer densities
+ * the REAL s2_semi_mgau_frame_eval over consecutive frames on a scorer set up as s2_semi_mgau_init_s3file does
+ * (two-frame top-N history initialised to WORST_DIST / codeword k), with one-dimensional streams built so that the
+ * density of codeword cw of stream f for the observation 0 is exactly the given integer (mean 0, var 1, det = value;
+ * a value below -2147483648 stands for a density under MAX_NEG_INT32): mgau_dist = eval_topn (+ eval_cb when
+ * frame % ds == 0), mgau_norm, get_scores_* dispatch, int16 accumulation.
+ * output per frame: f scores | n counts | t (cw score) per stream                                  */
+static void op_semif(char **w, int nw)
+{
+    s2_semi_mgau_t s;
+    gauden_t g;
+    int nfeat = (int)L(w[1]), topn = (int)L(w[2]), nsen = (int)L(w[3]), nden = (int)L(w[4]),
+        compall = (int)L(w[5]), use4b = (int)L(w[6]), ds = (int)L(w[7]), nfr = (int)L(w[8]);
+    int k = 9, i, j, m, nact, fr;
+    int16 *scores;
+    uint8 *act, cb16[16];
+    int32 *featlen;
+    mfcc_t **meanv, **varv, **detv, ***m3, ***v3, zero[4] = { 0, 0, 0, 0 }, **featbuf;
+    if (nfeat < 1 || topn < 1 || nden < topn || nsen < 1 || ds < 1 || nfr < 1) { printf("bad-op\n"); return; }
+    memset(&s, 0, sizeof(s));
+    memset(&g, 0, sizeof(g));
+    featlen = (int32 *)ckd_calloc(nfeat, sizeof(int32));
+    meanv = (mfcc_t **)ckd_calloc(nfeat, sizeof(*meanv)); varv = (mfcc_t **)ckd_calloc(nfeat, sizeof(*varv));
+    detv = (mfcc_t **)ckd_calloc(nfeat, sizeof(*detv));
+    m3 = (mfcc_t ***)ckd_calloc(nfeat, sizeof(*m3)); v3 = (mfcc_t ***)ckd_calloc(nfeat, sizeof(*v3));
+    featbuf = (mfcc_t **)ckd_calloc(nfeat, sizeof(*featbuf));
+    for (i = 0; i < nfeat; i++) {
+        featlen[i] = 1;
+        meanv[i] = (mfcc_t *)ckd_calloc(nden, sizeof(mfcc_t));
+        varv[i] = (mfcc_t *)ckd_calloc(nden, sizeof(mfcc_t));
+        detv[i] = (mfcc_t *)ckd_calloc(nden, sizeof(mfcc_t));
+        for (j = 0; j < nden; j++) varv[i][j] = 1.0f;
+        m3[i] = &meanv[i]; v3[i] = &varv[i];        /* mean[0][f][0] = meanv[f] */
+        featbuf[i] = zero;
+    }
+    g.mean = &m3; g.var = &v3; g.det = &detv;
+    g.n_mgau = 1; g.n_feat = nfeat; g.n_density = nden; g.featlen = featlen;
+    s.g = &g; s.max_topn = (int16)topn; s.n_sen = nsen; s.lmath_8b = lmath8(); s.ds_ratio = (int16)ds;
+    s.topn_beam = (uint8 *)ckd_calloc(nfeat, 1);
+    for (i = 0; i < nfeat; i++) s.topn_beam[i] = (uint8)L(w[k++]);
+    if (use4b) {
+        int half = (nsen + 1) / 2;
+        for (i = 0; i < 16; i++) cb16[i] = (uint8)L(w[k++]);
+        s.mixw_cb = cb16;
+        s.mixw = (uint8 ***)ckd_calloc_3d(nfeat, nden, half, 1);
+        for (i = 0; i < nfeat; i++) for (j = 0; j < nden; j++) for (m = 0; m < half; m++)
+            s.mixw[i][j][m] = (uint8)L(w[k++]);
+    } else {
+        s.mixw = (uint8 ***)ckd_calloc_3d(nfeat, nden, nsen, 1);
+        for (i = 0; i < nfeat; i++) for (j = 0; j < nden; j++) for (m = 0; m < nsen; m++)
+            s.mixw[i][j][m] = (uint8)L(w[k++]);
+    }
+    nact = (int)L(w[k++]);
+    act = (uint8 *)ckd_calloc(nact + 1, 1);
+    for (i = 0; i < nact; i++) act[i] = (uint8)L(w[k++]);
+    if (nw != k + nfr * nfeat * nden) { printf("bad-op\n"); return; }
+    /* as s2_semi_mgau_init_s3file (s2_semi_mgau.c:1000-1016) */
+    s.n_topn_hist = 2;
+    s.topn_hist = (vqFeature_t ***)ckd_calloc_3d(s.n_topn_hist, nfeat, topn, sizeof(vqFeature_t));
+    s.topn_hist_n = (uint8 **)ckd_calloc_2d(s.n_topn_hist, nfeat, sizeof(uint8));
+    for (i = 0; i < s.n_topn_hist; ++i) for (j = 0; j < nfeat; ++j) for (m = 0; m < topn; ++m) {
+        s.topn_hist[i][j][m].score = WORST_DIST;
+        s.topn_hist[i][j][m].codeword = m;
+    }
+    scores = (int16 *)ckd_calloc(nsen, sizeof(int16));
+    for (fr = 0; fr < nfr; fr++) {
+        for (i = 0; i < nfeat; i++) for (j = 0; j < nden; j++) detv[i][j] = (mfcc_t)strtod(w[k++], NULL);
+        fflush(stdout);
+        s2_semi_mgau_frame_eval((mgau_t *)&s, scores, act, nact, featbuf, fr, compall);
+        printf(fr ? " ; f" : "f");
+        for (i = 0; i < nsen; i++) printf(" %d", scores[i]);
+        printf(" | n");
+        for (i = 0; i < nfeat; i++) printf(" %d", (int)s.topn_hist_n[fr % 2][i]);
+        printf(" | t");
+        for (i = 0; i < nfeat; i++) for (m = 0; m < topn; m++) printf(" %d %d", s.f[i][m].codeword, s.f[i][m].score);
+    }
+    printf("\n");
+    ckd_free(scores); ckd_free(act); ckd_free_3d(s.mixw); ckd_free(s.topn_beam);
+    ckd_free_3d(s.topn_hist); ckd_free_2d(s.topn_hist_n);
+    for (i = 0; i < nfeat; i++) { ckd_free(meanv[i]); ckd_free(varv[i]); ckd_free(detv[i]); }
+    ckd_free(meanv); ckd_free(varv); ckd_free(detv); ckd_free(m3); ckd_free(v3); ckd_free(featbuf); ckd_free(featlen);
+}
+
+/* enter src lp best beam childIn childFrame frame : the REAL fsg_search_pnode_trans (fsg_search.c:407-438) on a parent
+ * pnode whose HMM has out_score = src and ONE child with logs2prob = lp and in-score childIn, in a search with
+ * bestscore = best, beam = beam.  output: e <child in-score afterwards> <child frame afterwards> <activated 0|1>  */
+static void op_enter(char **w, int nw)
+{
+    fsg_search_t fs;
+    fsg_pnode_t parent, child;
+    uint8 ***tp; uint16 **sseq; hmm_context_t *ctx;
+    if (nw != 8) { printf("bad-op\n"); return; }
+    memset(&fs, 0, sizeof(fs)); memset(&parent, 0, sizeof(parent)); memset(&child, 0, sizeof(child));
+    tp = (uint8 ***)ckd_calloc_3d(1, 3, 4, sizeof(uint8));
+    sseq = (uint16 **)ckd_calloc_2d(1, 3, sizeof(uint16));
+    ctx = hmm_context_init(3, (uint8 **const *)tp, NULL, sseq);
+    hmm_init(ctx, &parent.hmm, 0, 0, 0);
+    hmm_init(ctx, &child.hmm, 0, 0, 0);
+    parent.leaf = FALSE; parent.next.succ = &child; child.sibling = NULL;
+    hmm_out_score(&parent.hmm) = (int32)L(w[1]); hmm_out_history(&parent.hmm) = 7;
+    child.logs2prob = (int32)L(w[2]);
+    fs.bestscore = (int32)L(w[3]); fs.beam = (int32)L(w[4]);
+    hmm_in_score(&child.hmm) = (int32)L(w[5]);
+    hmm_frame(&child.hmm) = (int)L(w[6]);
+    fs.frame = (int)L(w[7]);
+    fflush(stdout);
+    fsg_search_pnode_trans(&fs, &parent);
+    printf("e %d %d %d\n", hmm_in_score(&child.hmm), hmm_frame(&child.hmm), fs.pnode_active_next ? 1 : 0);
+    glist_free(fs.pnode_active_next);
+    hmm_deinit(&parent.hmm); hmm_deinit(&child.hmm); hmm_context_free(ctx); ckd_free_2d(sseq); ckd_free_3d(tp);
+}
+
+/* arun N T best0 | tp 12 | per HMM: frame s0 s1 s2 out h0 h1 h2 hout | per frame: 3N senone scores
+ * the frame loop of state_align_search_step on N three-state HMMs WITHOUT the acoustic scoring and the token stack:
+ * the renormalisation test (pasted from the source) + the REAL renormalize_hmms, evaluate_hmms, prune_hmms and
+ * phone_transition of state_align_search.c (sf = 0, ef = INT_MAX: no alignment constraints).
+ * output: A renorms | per HMM: frame s0 s1 s2 out h0 h1 h2 hout | best per frame                       */
+static void op_arun(char **w, int nw)
+{
+    state_align_search_t sas;
+    int N = (int)L(w[1]), T = (int)L(w[2]), k = 4, i, j, t, nren = 0;
+    uint8 ***tp; uint16 **sseq; int16 *senscr; int32 *bests;
+    if (N < 1 || N > 16 || T < 0 || nw != 4 + 12 + 9 * N + 3 * N * T) { printf("bad-op\n"); return; }
+    memset(&sas, 0, sizeof(sas));
+    tp = (uint8 ***)ckd_calloc_3d(1, 3, 4, sizeof(uint8));
+    for (i = 0; i < 3; i++) for (j = 0; j < 4; j++) tp[0][i][j] = (uint8)L(w[k++]);
+    sseq = (uint16 **)ckd_calloc_2d(N, 3, sizeof(uint16));
+    for (i = 0; i < N; i++) for (j = 0; j < 3; j++) sseq[i][j] = (uint16)(3 * i + j);
+    senscr = (int16 *)ckd_calloc(3 * N, sizeof(int16));
+    bests = (int32 *)ckd_calloc(T + 1, sizeof(int32));
+    sas.hmmctx = hmm_context_init(3, (uint8 **const *)tp, senscr, sseq);
+    sas.n_phones = N; sas.n_emit_state = 3 * N;
+    sas.hmms = (hmm_t *)ckd_calloc(N, sizeof(hmm_t));
+    sas.sf = (int *)ckd_calloc(N, sizeof(int)); sas.ef = (int *)ckd_calloc(N, sizeof(int));
+    sas.best_score = (int32)L(w[3]);
+    for (i = 0; i < N; i++) {
+        hmm_t *h = sas.hmms + i;
+        hmm_init(sas.hmmctx, h, 0, i, 0);
+        sas.ef[i] = INT_MAX;
+        hmm_frame(h) = (int)L(w[k++]);
+        for (j = 0; j < 3; j++) h->score[j] = (int32)L(w[k++]);
+        h->out_score = (int32)L(w[k++]);
+        for (j = 0; j < 3; j++) h->history[j] = (int32)L(w[k++]);
+        h->out_history = (int32)L(w[k++]);
+    }
+    fflush(stdout);
+    for (t = 0; t < T; t++) {
+        for (i = 0; i < 3 * N; i++) senscr[i] = (int16)L(w[k++]);
+        if (C18_RENORM_TEST(sas.best_score)) { renormalize_hmms(&sas, t, sas.best_score); nren++; }
+        sas.best_score = evaluate_hmms(&sas, senscr, t);
+        prune_hmms(&sas, t);
+        phone_transition(&sas, t);
+        bests[t] = sas.best_score;
+    }
+    printf("A %d |", nren);
+    for (i = 0; i < N; i++) {
+        hmm_t *h = sas.hmms + i;
+        printf(" %d %d %d %d %d %d %d %d %d", hmm_frame(h), h->score[0], h->score[1], h->score[2], h->out_score,
+               h->history[0], h->history[1], h->history[2], h->out_history);
+    }
+    printf(" |");
+    for (t = 0; t < T; t++) printf(" %d", bests[t]);
+    printf("\n");
+    for (i = 0; i < N; i++) hmm_deinit(sas.hmms + i);
+    hmm_context_free(sas.hmmctx); ckd_free(sas.hmms); ckd_free(sas.sf); ckd_free(sas.ef);
+    ckd_free(senscr); ckd_free(bests); ckd_free_2d(sseq); ckd_free_3d(tp);
+}
+
+/* ---- C18More: multiplex and any-topology evaluators -------------------------------------------
+ * hmmx n mpx nsen nss | tp n*(n+1) | sseq nss*n | senid n (65535 = BAD) | senscore nsen | score n | out | hist n | outhist
+ *   the REAL hmm_vit_eval on an HMM built by hmm_context_init + hmm_init(ctx, hmm, mpx, 0, 0), whose senid[] array,
+ *   scores and histories are then set to the given values (mpx: senid[] holds senone-SEQUENCE ids).
+ * hmmxc enter score hist senscore...   : next frame of that HMM
+ * output: r score.. out best | hist.. outhist | senid..                                         */
+static uint8 ***x_tp; static int16 *x_senscore; static uint16 **x_sseq; static hmm_context_t *x_ctx;
+static hmm_t x_h; static int x_n, x_nsen;
+
+static void hmmx_release(void)
+{
+    if (!x_ctx) return;
+    hmm_deinit(&x_h);
+    hmm_context_free(x_ctx); x_ctx = NULL;
+    ckd_free(x_senscore); ckd_free_2d(x_sseq); ckd_free_3d(x_tp);
+}
+
+static void hmmx_print(int32 best)
+{
+    int i;
+    printf("r");
+    for (i = 0; i < x_n; i++) printf(" %d", x_h.score[i]);
+    printf(" %d %d |", x_h.out_score, best);
+    for (i = 0; i < x_n; i++) printf(" %d", x_h.history[i]);
+    printf(" %d |", x_h.out_history);
+    for (i = 0; i < x_n; i++) printf(" %d", (int)x_h.senid[i]);
+    printf("\n");
+}
+
+static void op_hmmx(char **w, int nw)
+{
+    int n = (int)L(w[1]), mpx = (int)L(w[2]), nsen = (int)L(w[3]), nss = (int)L(w[4]);
+    int k = 5, i, j;
+    int32 best;
+    if (n < 1 || n > HMM_MAX_NSTATE || nss < 1 || nsen < 1
+        || nw != 5 + n * (n + 1) + nss * n + n + nsen + n + 1 + n + 1) { printf("bad-op\n"); return; }
+    hmmx_release();
+    x_n = n; x_nsen = nsen;
+    x_tp = (uint8 ***)ckd_calloc_3d(1, n, n + 1, sizeof(uint8));
+    for (i = 0; i < n; i++) for (j = 0; j <= n; j++) x_tp[0][i][j] = (uint8)L(w[k++]);
+    x_sseq = (uint16 **)ckd_calloc_2d(nss, n, sizeof(uint16));
+    for (i = 0; i < nss; i++) for (j = 0; j < n; j++) x_sseq[i][j] = (uint16)L(w[k++]);
+    x_senscore = (int16 *)ckd_calloc(nsen, sizeof(int16));
+    x_ctx = hmm_context_init(n, (uint8 **const *)x_tp, x_senscore, x_sseq);
+    hmm_init(x_ctx, &x_h, mpx, 0, 0);
+    for (i = 0; i < n; i++) x_h.senid[i] = (uint16)L(w[k++]);
+    for (i = 0; i < nsen; i++) x_senscore[i] = (int16)L(w[k++]);
+    for (i = 0; i < n; i++) x_h.score[i] = (int32)L(w[k++]);
+    x_h.out_score = (int32)L(w[k++]);
+    for (i = 0; i < n; i++) x_h.history[i] = (int32)L(w[k++]);
+    x_h.out_history = (int32)L(w[k++]);
+    fflush(stdout);
+    best = hmm_vit_eval(&x_h);
+    hmmx_print(best);
+}
+
+static void op_hmmxc(char **w, int nw)
+{
+    int i;
+    int32 best;
+    if (!x_ctx || nw != 4 + x_nsen) { printf("bad-op\n"); return; }
+    if (L(w[1])) hmm_enter(&x_h, (int32)L(w[2]), (int32)L(w[3]), 0);
+    for (i = 0; i < x_nsen; i++) x_senscore[i] = (int16)L(w[4 + i]);
+    fflush(stdout);
+    best = hmm_vit_eval(&x_h);
+    hmmx_print(best);
+}
+
+/* hmmxrun n T sen tpself tpnext : an n-state non-multiplex left-to-right HMM (self = tpself, next = tpnext, no skips),
+ * cleared, entered once with score 0, then evaluated for T frames with every senone score = sen.
+ * output: x score.. out best | lowest entry-state score seen                                      */
+static void op_hmmxrun(char **w, int nw)
+{
+    int n, i, j, t, T;
+    int32 best = 0, low = 0;
+    if (nw != 6) { printf("bad-op\n"); return; }
+    n = (int)L(w[1]); T = (int)L(w[2]);
+    if (n < 1 || n > HMM_MAX_NSTATE || T < 0) { printf("bad-op\n"); return; }
+    hmmx_release();
+    x_n = n; x_nsen = n;
+    x_tp = (uint8 ***)ckd_calloc_3d(1, n, n + 1, sizeof(uint8));
+    for (i = 0; i < n; i++) for (j = 0; j <= n; j++)
+        x_tp[0][i][j] = (uint8)(j == i ? L(w[4]) : j == i + 1 ? L(w[5]) : 255);
+    x_sseq = (uint16 **)ckd_calloc_2d(1, n, sizeof(uint16));
+    for (j = 0; j < n; j++) x_sseq[0][j] = (uint16)j;
+    x_senscore = (int16 *)ckd_calloc(n, sizeof(int16));
+    for (j = 0; j < n; j++) x_senscore[j] = (int16)L(w[3]);
+    x_ctx = hmm_context_init(n, (uint8 **const *)x_tp, x_senscore, x_sseq);
+    hmm_init(x_ctx, &x_h, 0, 0, 0);
+    hmm_enter(&x_h, 0, 1, 0);
+    fflush(stdout);
+    for (t = 0; t < T; t++) {
+        best = hmm_vit_eval(&x_h);
+        if (x_h.score[0] < low) low = x_h.score[0];
+    }
+    printf("x");
+    for (i = 0; i < n; i++) printf(" %d", x_h.score[i]);
+    printf(" %d %d | %d\n", x_h.out_score, best, low);
+}
+
+#ifndef C18_RENORM_TEST   /* the condition of the renormalisation `if` of state_align_search_step, pasted from the source by tools/props/c18.py */
+#define C18_RENORM_TEST(b) (-1)
+#endif
+/* norm best n | score n | out : the renormalisation test of state_align_search_step (same C expression) and the
+ * REAL hmm_normalize on an n-state HMM with the given scores.  output: n fired score.. out        */
+static void op_norm(char **w, int nw)
+{
+    int32 bestscr = (int32)L(w[1]);
+    int n = (int)L(w[2]), i, k = 3, fired;
+    uint8 ***tp; uint16 **sseq; hmm_context_t *ctx; hmm_t h;
+    if (n < 1 || n > HMM_MAX_NSTATE || nw != 3 + n + 1) { printf("bad-op\n"); return; }
+    tp = (uint8 ***)ckd_calloc_3d(1, n, n + 1, sizeof(uint8));
+    sseq = (uint16 **)ckd_calloc_2d(1, n, sizeof(uint16));
+    ctx = hmm_context_init(n, (uint8 **const *)tp, NULL, sseq);
+    hmm_init(ctx, &h, 0, 0, 0);
+    for (i = 0; i < n; i++) h.score[i] = (int32)L(w[k++]);
+    h.out_score = (int32)L(w[k++]);
+    fflush(stdout);
+    fired = C18_RENORM_TEST(bestscr);
+    if (fired) hmm_normalize(&h, bestscr);
+    printf("n %d", fired);
+    for (i = 0; i < n; i++) printf(" %d", h.score[i]);
+    printf(" %d\n", h.out_score);
+    hmm_deinit(&h); hmm_context_free(ctx); ckd_free_2d(sseq); ckd_free_3d(tp);
+}
+
 /* arith ops of the search (fsg_search.c): these are single expressions; the harness evaluates the
  * same C expressions on int32 so that the model's Int arithmetic is compared with real int32.   */
 static int main_int(void)
@@ -300,6 +615,14 @@ static int main_int(void)
         else if (!strcmp(W[0], "ptm")) op_ptm(W, nw);
         else if (!strcmp(W[0], "semi")) op_semi(W, nw);
         else if (!strcmp(W[0], "top")) op_top(W, nw);
+        else if (!strcmp(W[0], "hmmx")) op_hmmx(W, nw);
+        else if (!strcmp(W[0], "hmmxc")) op_hmmxc(W, nw);
+        else if (!strcmp(W[0], "hmmxrun")) op_hmmxrun(W, nw);
+        else if (!strcmp(W[0], "norm")) op_norm(W, nw);
+        else if (!strcmp(W[0], "semif")) op_semif(W, nw);
+        else if (!strcmp(W[0], "enter")) op_enter(W, nw);
+        else if (!strcmp(W[0], "arun")) op_arun(W, nw);
+        else if (!strcmp(W[0], "addidx")) { printf("a %d %d\n", g_addidx_max, g_addidx_oob); g_addidx_max = -1; g_addidx_oob = 0; }
         else printf("bad-op\n");
         fflush(stdout);
     }
@@ -596,6 +919,70 @@ static void cmn_roundtrip(decoder_t *d, int update, int *struct_fin, int *text_f
     *text = c1;
 }
 
+/* B9: the largest add-table index ptm_mgau_senone_eval can produce on the LOADED mixture weights, over every senone,
+ * stream, choice and order of top-N codewords and every normalised score vector in [0, MAX_NEG_ASCR]^K:
+ * the index of an add is |acc - y| with y <= maxbyte + MAX_NEG_ASCR and acc >= (the chain over the K-1 smallest weight
+ * bytes of that senone with scores 0, minimised over their orders) — fast_logmath_add is monotone in both arguments for
+ * a non-increasing table with steps <= 1, so smaller inputs give a smaller accumulator; in the other direction
+ * acc - y <= maxbyte + MAX_NEG_ASCR.  All orders are tried for K-1 <= 5 (exact = 1), ascending and descending otherwise. */
+static int c18_chain(logmath_t *lm, const int *v, int n)
+{
+    int acc = v[0], i;
+    logadd_t *t = LOGMATH_TABLE(lm);
+    for (i = 1; i < n; i++) {
+        int x = acc, y = v[i], dd = x > y ? x - y : y - x, r = x > y ? y : x;
+        acc = r - ((uint32)dd < t->table_size ? ((uint8 *)t->table)[dd] : 0);
+    }
+    return acc;
+}
+static int c18_perm_min(logmath_t *lm, int *v, int n, int k)
+{
+    int best, i;
+    if (k == n) return c18_chain(lm, v, n);
+    best = INT_MAX;
+    for (i = k; i < n; i++) {
+        int tmp = v[k], r;
+        v[k] = v[i]; v[i] = tmp;
+        r = c18_perm_min(lm, v, n, k + 1);
+        if (r < best) best = r;
+        tmp = v[k]; v[k] = v[i]; v[i] = tmp;
+    }
+    return best;
+}
+static int c18_addidx_bound(ptm_mgau_t *pm, int topn, int *out_sen, int *out_exact)
+{
+    int f, sen, cw, worst = -1, nden = pm->g->n_density, K1 = topn - 1;
+    int small[8];
+    *out_exact = K1 <= 5;
+    if (K1 > 7) K1 = 7;
+    for (f = 0; f < pm->g->n_feat; f++) for (sen = 0; sen < pm->n_sen; sen++) {
+        int maxb = 0, n = 0, i, accmin, idx;
+        for (cw = 0; cw < nden; cw++) {
+            int b;
+            if (pm->mixw_cb) { int dcw = pm->mixw[f][cw][sen / 2]; b = pm->mixw_cb[(dcw & 1) ? dcw >> 4 : dcw & 0x0f]; /* as ptm_mgau.c:376 */ }
+            else b = pm->mixw[f][cw][sen];
+            if (b > maxb) maxb = b;
+            /* keep the K1 smallest */
+            if (n < K1) { small[n++] = b; }
+            else { int mi = 0; for (i = 1; i < n; i++) if (small[i] > small[mi]) mi = i; if (n && b < small[mi]) small[mi] = b; }
+        }
+        if (n == 0) accmin = 0;
+        else if (n <= 5) accmin = c18_perm_min(pm->lmath_8b, small, n, 0);
+        else {
+            int a[8], bb[8], j, u, v2;
+            for (i = 0; i < n; i++) a[i] = small[i];
+            for (i = 0; i < n; i++) for (j = i + 1; j < n; j++) if (a[j] < a[i]) { int tt = a[i]; a[i] = a[j]; a[j] = tt; }
+            for (i = 0; i < n; i++) bb[i] = a[n - 1 - i];
+            u = c18_chain(pm->lmath_8b, a, n); v2 = c18_chain(pm->lmath_8b, bb, n);
+            accmin = u < v2 ? u : v2;
+        }
+        if (accmin > 0) accmin = 0;
+        idx = maxb + MAX_NEG_ASCR - accmin;
+        if (idx > worst) { worst = idx; *out_sen = sen; }
+    }
+    return worst;
+}
+
 static int main_sig(const char *json, const char *speech, const char *lang)
 {
     static char line[4096];
@@ -621,7 +1008,8 @@ static int main_sig(const char *json, const char *speech, const char *lang)
         /* the range hypotheses of the theorems, read from the loaded model and search (reported and checked
          * by tools/props/c18.py): largest mixture weight, table bytes, stream / top-N counts, penalties */
         fsg_search_t *fs = (fsg_search_t *)d->search;
-        int mixw_max = -1, is4b = 0, n_mgau = -1, n_den = -1, tmax = -1, lp_min = 0, tp_max = -1, i, j, k;
+        int mixw_max = -1, is4b = 0, n_mgau = -1, n_den = -1, tmax = -1, lp_min = INT_MAX, lp_max = INT_MIN, lp_raw_min = INT_MAX, tp_max = -1, i, j, k;
+        int addidx_bound = -1, addidx_sen = -1, addidx_exact = 0, tabsize = -1;
         if (!strcmp(d->acmod->mgau->vt->name, "ptm")) {
             ptm_mgau_t *pm = (ptm_mgau_t *)d->acmod->mgau;
             logadd_t *t = LOGMATH_TABLE(pm->lmath_8b);
@@ -630,16 +1018,21 @@ static int main_sig(const char *json, const char *speech, const char *lang)
             else for (i = 0; i < pm->g->n_feat; i++) for (j = 0; j < n_den; j++) for (k = 0; k < pm->n_sen; k++)
                 if (pm->mixw[i][j][k] > mixw_max) mixw_max = pm->mixw[i][j][k];
             for (i = 0; i < (int)t->table_size; i++) if (((uint8 *)t->table)[i] > tmax) tmax = ((uint8 *)t->table)[i];
+            addidx_bound = c18_addidx_bound(pm, (int)config_int(decoder_config(d), "topn"), &addidx_sen, &addidx_exact);
+            tabsize = (int)t->table_size;
         }
         for (i = 0; i < fsg_model_n_state(fs->fsg); i++) {
             fsg_arciter_t *it;
             for (it = fsg_model_arcs(fs->fsg, i); it; it = fsg_arciter_next(it)) {
                 int v = fsg_link_logs2prob(fsg_arciter_get(it)) >> SENSCR_SHIFT;
                 if (v < lp_min) lp_min = v;
+                if (v > lp_max) lp_max = v;
+                if (fsg_link_logs2prob(fsg_arciter_get(it)) < lp_raw_min) lp_raw_min = fsg_link_logs2prob(fsg_arciter_get(it));
             }
         }
-        printf("ready mgau=%s n_sen=%d n_feat=%d ceplen=%d frate=%d topn=%d n_emit=%d n_mgau=%d n_den=%d mixw4b=%d mixw_max=%d "
+        printf("ready link_max=%d link_raw_min=%d addidx_bound=%d addidx_sen=%d addidx_exact=%d tabsize=%d mgau=%s n_sen=%d n_feat=%d ceplen=%d frate=%d topn=%d n_emit=%d n_mgau=%d n_den=%d mixw4b=%d mixw_max=%d "
                "tab_max=%d pip=%d wip=%d beam=%d pbeam=%d wbeam=%d link_min=%d cmntype=%d varnorm=%d\n",
+               lp_max, lp_raw_min, addidx_bound, addidx_sen, addidx_exact, tabsize,
                d->acmod->mgau->vt->name, (int)bin_mdef_n_sen(d->acmod->mdef), (int)feat_dimension1(d->acmod->fcb), ceplen,
                (int)config_int(decoder_config(d), "frate"), (int)config_int(decoder_config(d), "topn"),
                (int)bin_mdef_n_emit_state(d->acmod->mdef), n_mgau, n_den, is4b, mixw_max, tmax,
@@ -821,13 +1214,13 @@ static int main_sig(const char *json, const char *speech, const char *lang)
                 free(c1); c1 = txt;
             }
         }
-        printf("obs ncep=%ld cep_bad=%ld cep_first_bad=%ld nfeat=%ld feat_bad=%ld feat_first_bad=%ld "
+        printf("obs addidx_max=%d addidx_oob=%d ncep=%ld cep_bad=%ld cep_first_bad=%ld nfeat=%ld feat_bad=%ld feat_first_bad=%ld "
                "c0neg=%ld sen_frames=%ld sen_empty=%ld sen_neg=%ld sen_minnz=%ld sen_first_bad=%ld sen_max=%d "
                "hmm_checked=%ld hmm_bad=%ld hmm_min=%d hmm_max=%d best_frames=%ld best_up=%ld best_pos=%ld best_last=%d "
                "hist_n=%ld hist_bad=%ld hist_up=%ld hyp=%d score=%d nseg=%d segsum=%lld segbad=%d "
                "cmn_struct_fin=%d cmn_fin=%d cmn_rt=%d cmn_set_rc=%d cmn_bad_update=%d cmn_relerr=%.3g cmn_denote=%.3g "
                "cmn_mid_checks=%ld cmn_mid_bad=%ld cmn_mid_first=%ld cmn_mid_err=%.3g nframes=%d cmn=%s\n",
-               o.ncep, o.cep_bad, o.cep_first_bad, o.nfeat, o.feat_bad, o.feat_first_bad,
+               g_addidx_max, g_addidx_oob, o.ncep, o.cep_bad, o.cep_first_bad, o.nfeat, o.feat_bad, o.feat_first_bad,
                o.c0neg, o.sen_frames, o.sen_empty, o.sen_neg, o.sen_minnz, o.sen_first_bad, o.sen_max == INT_MIN ? -1 : o.sen_max,
                o.hmm_checked, o.hmm_bad, o.hmm_min, o.hmm_max == INT_MIN ? 1 : o.hmm_max, o.best_frames, o.best_up, o.best_pos, o.best_last,
                o.hist_n, o.hist_bad, o.hist_up, hyp ? 1 : 0, score, nseg, segsum, segbad,
